@@ -13,6 +13,10 @@ from . import sym
 from .sym import canon
 
 
+def _has_ite(v):
+    return sym.contains(v, lambda n: n[0] == "ite" and len(n) == 4)
+
+
 def _primitive_atoms(a, acc):
     a = canon(a)
     if isinstance(a, tuple) and a:
@@ -82,6 +86,48 @@ def normalize_results(S):
     return norm
 
 
+class Need(Exception):
+    """evaluation consulted a condition the current partial assignment does not decide"""
+
+    def __init__(self, atom):
+        Exception.__init__(self, "undecided")
+        self.atom = atom
+
+
+def _undecided_atom(cond, g):
+    acc = []
+    _primitive_atoms(cond, acc)
+    for a in acc:
+        if a[0] == "bool":
+            continue
+        if not sym.lit_holds(g, a, True) and not sym.lit_holds(g, a, False):
+            return a
+    return None
+
+
+def _judge(cond, p, g):
+    """True / False when g decides the literal; raises Need otherwise."""
+    if sym.lit_holds(g, cond, p):
+        return True
+    if sym.lit_holds(g, cond, not p):
+        return False
+    a = _undecided_atom(cond, g)
+    if a is None:
+        return False
+    raise Need(a)
+
+
+def _first_open_ite(v, g):
+    """the first phi condition left inside a restricted value that g does not decide"""
+    for n in sym.walk(v):
+        if n[0] == "ite" and len(n) == 4 and not _has_ite(n[1]):
+            c = canon(n[1])
+            a = _undecided_atom(c, g)
+            if a is not None:
+                return a
+    return None
+
+
 class Behaviour(object):
     def __init__(self, S, observe_self_fields=True):
         self.S = S
@@ -106,14 +152,38 @@ class Behaviour(object):
         self.exits = S.exits
         self.raises = S.raises
 
+    def _guard_atoms(self, x, acc):
+        for a, p in x.guard:
+            if _has_ite(a):
+                continue  # decided through its raw form below
+            _primitive_atoms(self.norm(a), acc)
+        for c, p in (getattr(x, "graw", None) or ()):
+            if not _has_ite(c):
+                continue
+            # a condition over a phi value: its atoms are the phi conditions and the condition on every resolved case
+            conds = []
+            for n in sym.walk(c):
+                if n[0] == "ite" and len(n) == 4:
+                    cc = canon(self.norm(n[1]))
+                    if not _has_ite(cc) and cc not in conds:
+                        conds.append(cc)
+            for cc in conds:
+                _primitive_atoms(cc, acc)
+            if len(conds) <= 4:
+                for bits in itertools.product((True, False), repeat=len(conds)):
+                    gg = sym.sat(tuple(zip(conds, bits)))
+                    if sym.inconsistent(gg):
+                        continue
+                    r = canon(sym.restrict(self.norm(c), gg))
+                    if not _has_ite(r):
+                        _primitive_atoms(r, acc)
+
     def atoms(self):
         acc = []
         for _, e in self.effects:
-            for a, p in e.guard:
-                _primitive_atoms(self.norm(a), acc)
+            self._guard_atoms(e, acc)
         for st, rv in self.exits:
-            for a, p in st.guard:
-                _primitive_atoms(self.norm(a), acc)
+            self._guard_atoms(st, acc)
             self._value_atoms(rv, acc)
         for _, e in self.effects:
             for v in self._effect_values(e):
@@ -129,6 +199,13 @@ class Behaviour(object):
             elif v[0] in ("+", "-", "*", "/", "neg", "tuple", "not", "and", "or", "cmp"):
                 for x in v[1:]:
                     self._value_atoms(x, acc, depth + 1)
+                if depth == 0:
+                    try:
+                        cv = canon(self.norm(v))
+                    except Exception:
+                        cv = None
+                    if isinstance(cv, tuple) and cv and cv[0] in _BOOLEAN:
+                        _primitive_atoms(cv, acc)
 
     def _effect_values(self, e):
         if e.kind == "write":
@@ -143,15 +220,15 @@ class Behaviour(object):
         """Behaviour under the saturated literal set g: (return value or 'raise'/'?', [effect signatures])."""
         ret = None
         for st, rv in self.exits:
-            if self._holds(st.guard, g):
-                ret = ("return", canon(sym.restrict(self.norm(rv), g)))
+            if self._holds(st, g):
+                ret = ("return", _decide(self._val(rv, g), g))
                 break
         effs = []
         for kind, e in self.effects:
-            if not self._holds(e.guard, g):
+            if not self._holds(e, g):
                 continue
             loops = tuple((canon(self.norm(l.iter)) if not l.is_while else ("while",), tuple(sorted((canon(self.norm(a)), p) for a, p in l.filter))) for l in e.loops)
-            r = lambda v: canon(sym.restrict(self.norm(v), g)) if v is not None else None
+            r = lambda v: self._val(v, g)
             if kind == "write":
                 effs.append(("write", loops, r(e.obj), e.field, r(e.value)))
             elif kind == "store":
@@ -165,13 +242,56 @@ class Behaviour(object):
             ret = ("raise",) if any(k == "raise" for k, *_ in effs) else ("?",)
         return ret, effs
 
-    def _holds(self, guard, g):
-        for a, p in guard:
+    def _holds(self, x, g):
+        for a, p in x.guard:
             if isinstance(a, tuple) and a and a[0] == "impl":
+                a = a[1]
+            if _has_ite(a):
                 continue
-            if not sym.lit_holds(g, self.norm(a), p):
+            if not _judge(canon(self.norm(a)), p, g):
+                return False
+        for c, p in (getattr(x, "graw", None) or ()):
+            if not _has_ite(c):
+                continue
+            r = canon(sym.restrict(self.norm(c), g))
+            if r == ("bool", p):
+                continue
+            if r == ("bool", not p):
+                return False
+            if _has_ite(r):
+                a = _first_open_ite(sym.restrict(self.norm(c), g), g)
+                if a is not None:
+                    raise Need(a)
+                return False
+            if not _judge(r, p, g):
                 return False
         return True
+
+    def _val(self, v, g):
+        if v is None:
+            return None
+        r = sym.restrict(self.norm(v), g)
+        if _has_ite(r):
+            a = _first_open_ite(r, g)
+            if a is not None:
+                raise Need(a)
+        return canon(r)
+
+
+_BOOLEAN = ("cmp", "zero", "isnan", "isnone", "eq", "in", "is", "and", "or", "not")
+
+
+def _decide(v, g):
+    """A returned truth value is compared as a truth value: resolve it when the assignment decides it."""
+    if isinstance(v, tuple) and v:
+        try:
+            if (v, True) in g or (v[0] in _BOOLEAN and sym.lit_holds(g, v, True)):
+                return sym.TRUE
+            if (v, False) in g or (v[0] in _BOOLEAN and sym.lit_holds(g, v, False)):
+                return sym.FALSE
+        except Exception:
+            pass
+    return v
 
 
 def _const_eq(a):
@@ -212,40 +332,58 @@ def feasible(assign):
     return True
 
 
-def compare(S_code, S_ref, limit=14, ignore_fields=()):
-    """Return (n_assignments, differences[:k]) - differences are (assignment, what, code, ref)."""
+def compare(S_code, S_ref, limit=14, ignore_fields=(), max_leaves=6000):
+    """Return (n_cases, differences[:k]) - differences are (assignment, what, code, ref).
+
+    The case split is made on demand: both behaviours are evaluated under a partial assignment of
+    branch atoms; whenever either evaluation consults a condition the assignment does not decide, the
+    assignment is split on that atom.  Every leaf is a set of literals under which both behaviours
+    are fully determined; `limit` bounds the depth of the split by 2*limit atoms."""
     A, B = Behaviour(S_code), Behaviour(S_ref)
-    atoms = []
-    for a in A.atoms() + B.atoms():
-        if a not in atoms:
-            atoms.append(a)
-    if len(atoms) > limit:
-        return -len(atoms), [((), "too-many-atoms", len(atoms), limit)]
     diffs = []
-    n = 0
-    for bits in itertools.product((True, False), repeat=len(atoms)):
-        assign = tuple(zip(atoms, bits))
+    count = [0]
+    deepest = [0]
+
+    class _TooMany(Exception):
+        pass
+
+    def explore(assign):
+        if len(diffs) >= 3:
+            return
         if not feasible(assign):
-            continue
+            return
         g = sym.sat(assign)
         if sym.inconsistent(g):
-            continue
-        n += 1
-        ra, ea = A.evaluate(g)
-        rb, eb = B.evaluate(g)
+            return
+        try:
+            ra, ea = A.evaluate(g)
+            rb, eb = B.evaluate(g)
+        except Need as need:
+            if len(assign) >= 2 * limit:
+                deepest[0] = len(assign) + 1
+                raise _TooMany()
+            for bit in (True, False):
+                explore(assign + ((need.atom, bit),))
+            return
+        count[0] += 1
+        if count[0] > max_leaves:
+            deepest[0] = len(assign)
+            raise _TooMany()
         ea = [x for x in ea if not (x[0] == "write" and x[3] in ignore_fields)]
         eb = [x for x in eb if not (x[0] == "write" and x[3] in ignore_fields)]
         if ra != rb:
             diffs.append((assign, "return", ra, rb))
         elif ea != eb:
-            # report the first differing effect
             k = 0
             while k < min(len(ea), len(eb)) and ea[k] == eb[k]:
                 k += 1
             diffs.append((assign, "effect#%d" % k, ea[k] if k < len(ea) else None, eb[k] if k < len(eb) else None))
-        if len(diffs) >= 3:
-            break
-    return n, diffs
+
+    try:
+        explore(())
+    except _TooMany:
+        return -max(deepest[0], 1), [((), "too-many-atoms", deepest[0], limit)]
+    return count[0], diffs
 
 
 def fmt_assign(assign):
